@@ -59,6 +59,8 @@ def make_writer(scn, pps, args):
 
         prec = np.int64(prec)  # precisions often come out of numpy / config arrays
     kw = {"decimal_precision": prec, "file_format": FMT[args["fmt"]]}
+    if args.get("prec_form") == "default":
+        del kw["decimal_precision"]  # the documented default (4 decimals)
     meta = args.get("meta") or {}
     if "author" in meta:
         kw["author"] = meta["author"]
@@ -182,6 +184,9 @@ class Run(RunBase):
         args = {"fmt": op["fmt"], "prec": op["prec"], "meta": op.get("meta")}
         if op.get("prec_form") == "np":
             args["prec_form"] = "np"
+        if op.get("prec_form") == "default":
+            args["prec_form"], args["prec"] = "default", 4
+            self.probe("writer-constructed-with-the-default-precision")
         w = make_writer(scn, pps, args)
         for name, other in self.writers.items():
             if name != op["w"] and other["writes_pending"]:
@@ -479,7 +484,7 @@ def _writer_user(rng, run, name, cfg):
                                               round(rng.uniform(-170, 170), 4)])
         prec = rng.pick(cfg["precisions"])
         yield {"op": "construct", "w": w, "scn": rng.pick(scns), "fmt": fmt, "prec": prec, "meta": meta,
-               "prec_form": rng.choice(["int", "int", "np"])}
+               "prec_form": rng.choice(["int", "int", "np", "default"])}
         for _ in range(rng.randint(1, 3)):
             op = {"op": "write", "w": w, "path": f"f{rng.randrange(cfg['n_paths'])}.{fmt}",
                   "mode": rng.weighted(["SKIP", "ALWAYS", "ASK"], [cfg["p_skip"], 1 - cfg["p_skip"], cfg.get("p_ask", 0.0)]),
@@ -567,7 +572,8 @@ class C15(Property):
                        "midnight-between-two-writes-of-one-writer", "success-after-failed-write",
                        "both-write-methods-on-one-writer", "write-failed-as-twin", "identical-writers-compared",
                        "readback-ok", "clock-crossed-midnight", "clock-went-backwards", "write-after-scenario-changed", "target-is-a-directory", "asked-user-answer-y", "asked-user-answer-n",
-                       "reader-object-reused-after-rewrite", "writer-cloned:copy"]
+                       "reader-object-reused-after-rewrite", "writer-cloned:copy",
+                       "writer-constructed-with-the-default-precision"]
     assumptions = [
         "the pristine twin is the library itself (fresh writer, fork-isolated): a defect that a fresh writer shows "
         "too is C01/C02/C03 territory and invisible here by construction",
